@@ -336,7 +336,7 @@ def binding_part(ctx, variant):
     scenarios inside the quantifier where TLC rejects the model's description of a simulator (caller decides)."""
     rng = random.Random(ctx.seed + 12)
     stats = new_stats()
-    cap = ctx.pick(500, 2500)
+    cap = ctx.pick(300, 2500)
     exp = [(3, 3, 3, 6, False), (3, 1, 3, 6, True)] if ctx.quick else \
           [(3, 3, 3, 6, True), (3, 1, 3, 6, True), (4, 1, 3, 6, False), (4, 1, 1, 4, True), (3, 3, 3, 9, False)]
     jobs = [dict(module="SimEquiv", cfg_text=se_cfg(K, ch, tf, n, False, ["Export", "NoErr"], variant, constraint=False, rel=rel),
@@ -372,7 +372,7 @@ def binding_part(ctx, variant):
     reg = {"scenarios": len(old_in) + len(old_out) + len(now_in), "c12_violations_on_code": stats['c12'] - before[0],
            "code_still_differs": stats['code_differs'] - before[1]}
     # T (model binding): random scenarios, larger lattices and real 1m / 3m / 5m / 15m timeframes, ragged tails
-    n_rand = ctx.pick(400, 6000)
+    n_rand = ctx.pick(250, 6000)
     rs = [rand_scenario(rng, ragged=(j % 12 == 0)) for j in range(n_rand)]
     for off in range(0, n_rand, 1500):
         bind(ctx, rs[off:off + 1500], "random-%d" % off, stats, variant)
